@@ -62,6 +62,7 @@ REF_POSITIONS = ['={r}', '=SUM({r})', '=COLUMN({r})', '=INDEX({r},1)', '=INDEX({
                  '=EOMONTH({r},1)', '=DATEDIF({r},{r},"D")', '=DAY({r})', '=MONTH({r})', '=1+{r}*2', '={r}={r}']
 
 _TMP = None
+_FILE_NO = [0]
 
 
 def tmpdir():
@@ -172,7 +173,11 @@ def examine(sheets, stats, file_mode=False, entry=None):
                 if not (o[0] == 'VALUE' and type(o[1]) is type(w) and o[1] == w):
                     return ('CONSTANT', {'cell': f'{t}!{addr}', 'expected': D.enc(w), 'got': D.enc(o[1]) if o[0] == 'VALUE' else list(o)})
     if file_mode:
-        path = os.path.join(tmpdir(), f'gen_{os.getpid()}.py')
+        # the file name rotates through names of modules the generated runtime imports (and stays the same path in between,
+        # so that a later translation is loaded from a path an earlier one was loaded from)
+        _FILE_NO[0] += 1
+        stem = ('gen_%d' % os.getpid(), 'calendar', 're', 'gen_%d' % os.getpid(), 'decimal', 'string', 'math')[_FILE_NO[0] % 7]
+        path = os.path.join(tmpdir(), stem + '.py')
         bio.seek(0)
         p = D.Parser().disable_safety_check().set_excel_file_path(bio)
         try:
